@@ -20,7 +20,8 @@ META = dict(
          "queued, a new one is accepted) with a per-connection oracle. Receive side: a "
          "stream of 1-6 (9) distinct bytes is delivered with every cut and would-block pattern, through serviceReceives "
          "and serviceReceiveOnce with a large and a 2-byte buffer; rxbs must equal the bytes returned so far after every "
-         "call and the whole stream at the end.",
+         "call and the whole stream at the end; streams that end with the peer closing or resetting, possibly in the same "
+         "serviceReceives pass as data, must be complete in rxbs too.",
     note="Trusts that the doubles' answer space (counts 0..len, would-block, arbitrary cuts) covers what a non-blocking "
          "stream socket can answer without error; error answers are C25's subject. Messages longer than 3 bytes and more "
          "than 3 stalls per execution are outside the bound.",
@@ -29,9 +30,9 @@ import itertools
 
 from mc import core, net
 
-QUICK = dict(tx_total=6, tx_stalls=2, rx_total=6, rx_stalls=2, ba_total=3, smallbs_total=4, bs1_total=3, inject_total=3, empty_total=3,
+QUICK = dict(tx_total=6, tx_stalls=2, rx_total=6, rx_stalls=2, ba_total=3, smallbs_total=4, bs1_total=3, inject_total=3, empty_total=3, rxend_total=3,
              pairs=(((2,), (2,)), ((1, 2), (2,))), pair_stalls=1)
-THOROUGH = dict(tx_total=9, tx_stalls=3, rx_total=9, rx_stalls=3, ba_total=6, smallbs_total=7, bs1_total=6, inject_total=5, empty_total=4,
+THOROUGH = dict(tx_total=9, tx_stalls=3, rx_total=9, rx_stalls=3, ba_total=6, smallbs_total=7, bs1_total=6, inject_total=5, empty_total=4, rxend_total=5,
                 pairs=(((2,), (2,)), ((1, 2), (2,)), ((3,), (1, 2)), ((2, 1), (1, 2))), pair_stalls=2)
 ALPHABET = b"abcdefghijklmnopqrstuvwxyz"
 TRANSPORTS = ("Client", "ClientTls", "Incomer", "IncomerTls", "Driver", "DriverDeviceNb")
@@ -392,6 +393,84 @@ def rx_config(kind, nbytes, bs, once, stalls, part, replay=None, inject="own"):
     return st["executions"]
 
 
+class EndPolicy(net.ChooserPolicy):
+    """Like ChooserPolicy, but an idle recv (nothing waiting) takes the errno alternative, not would-block."""
+
+    def decide(self, sock, op, cands):
+        if op == "recv" and cands[0] == net.BLOCK and len(cands) > 1:
+            return 1
+        return net.ChooserPolicy.decide(self, sock, op, cands)
+
+
+def rxend_config(kind, nbytes, end, part, replay=None):
+    """A stream whose last bytes are followed by the end of the connection: the peer closes (recv returns b'')
+    or resets (ECONNRESET) - possibly within the SAME serviceReceives pass as data chunks (every cut of the
+    stream is enumerated).  Oracle: every byte the socket returned is in .rxbs exactly once, in order; the rx
+    wire log agrees; the transport ends up cut off."""
+    import errno
+    stream = ALPHABET[:nbytes]
+
+    def run(ch):
+        with core.watchdog(20):
+            return run1(ch)
+
+    def run1(ch):
+        fn = net.FakeNet(policy=EndPolicy(ch))
+        t, sock, wl, addr = make(kind, fn, 8096)
+        sock.feed(stream)
+        if end == "close":
+            sock.feed_eof()
+            sock.menu = net.Menu(recv_split=True)
+        else:
+            sock.menu = net.Menu(recv_split=True, recv_idle_errnos=(errno.ECONNRESET,))
+        bad = None
+        calls = 0
+        while not t.cutoff and calls < nbytes + 3:
+            try:
+                t.serviceReceives()
+            except Exception as ex:
+                bad = ("raised", "%s: %s" % (type(ex).__name__, ex))
+                break
+            calls += 1
+            if bytes(t.rxbs) != bytes(sock.recvd):
+                bad = ("rxbs", "rxbs %r after the socket returned %r%s" % (bytes(t.rxbs), bytes(sock.recvd),
+                                                                          " and the connection ended" if t.cutoff else ""))
+                break
+        answers = [net.show(a) for n_, op, a in fn.log if op == "recv"]
+        LAST["answers"] = answers
+        if bad is None:
+            if not t.cutoff:
+                bad = ("stuck", "the end of the connection was not noticed in %d service calls" % calls)
+            elif bytes(t.rxbs) != stream:
+                bad = ("rxbs", "rxbs %r, arrived %r" % (bytes(t.rxbs), stream))
+        if bad is None and wl is not None:
+            chunks, pos = [], 0
+            for n_, op, a in fn.log:
+                if op == "recv" and a[0] == "n":
+                    chunks.append(stream[pos:pos + a[1]])
+                    pos += a[1]
+            if wl.getRx() != wire_records("RX", addr, chunks):
+                bad = ("wirelog", "rx wire log %r, chunks returned %r" % (wl.getRx(), chunks))
+        part.evaluations += 1
+        part.nontrivial("rxend|%s|%d|%s|%s" % (kind, nbytes, end, ",".join(answers)))
+        part.outcome("rx then %s: %d chunks" % (end, sum(1 for a in answers if a.startswith("n:"))))
+        if bad is not None:
+            part.violation("%s.serviceReceives|%s" % (kind, bad[0]),
+                           "stream=%s then %s answers=%s" % (stream.decode(), end, ",".join(answers)),
+                           "%s receive: %s" % (kind, bad[1]),
+                           dict(transport=kind, direction="rx", stream=stream.decode(), then=end, method="serviceReceives",
+                                recv_answers=answers, choices=ch.choices, rxbs=bytes(t.rxbs).decode("latin-1"),
+                                case=["rxend", kind, nbytes, end],
+                                how="peer sends the stream and then closes / resets; call serviceReceives() until cut off; "
+                                    "the socket double answers the successive recv() calls as listed"))
+        return bad
+
+    if replay is not None:
+        run(core.Chooser(replay))
+        return 1
+    return core.dfs(run)["executions"]
+
+
 def pair_config(kind, lensA, lensB, scenario, stalls, part, replay=None):
     """Two server-side connections created the way Server / ServerTls creates them (serviceConnects).
     scenario "both": both live; messages are queued alternately on A and B; then every interleaving of
@@ -592,6 +671,10 @@ def configs(tier):
             for nbytes in range(1, b["inject_total"] + 1):
                 for once in (0, 1):
                     out.append(("rx", kind, nbytes, 8096, once, b["rx_stalls"], inject))
+    for kind in ("Client", "ClientTls", "Incomer", "IncomerTls"):     # data followed by close / reset, also in one pass
+        for nbytes in range(1, b["rxend_total"] + 1):
+            for end in ("close", "reset"):
+                out.append(("rxend", kind, nbytes, end))
     for kind in ("Incomer", "IncomerTls"):       # two connections of one Server / ServerTls
         for la, lb in b["pairs"]:
             out.append(("pair", kind, la, lb, "both", b["pair_stalls"]))
@@ -611,6 +694,8 @@ def work(cfg):
         _, kind, lens, stalls, form = cfg[:5]
         n = tx_config(kind, lens, stalls, p, form=form, bs=(cfg[5] if len(cfg) > 5 else 8096),
                       inject=(cfg[6] if len(cfg) > 6 else "own"))
+    elif cfg[0] == "rxend":
+        n = rxend_config(cfg[1], cfg[2], cfg[3], p)
     elif cfg[0] == "pair":
         n = pair_config(cfg[1], cfg[2], cfg[3], cfg[4], cfg[5], p)
         if cfg[2] == (1, 2) and cfg[1] == "Incomer":
@@ -620,7 +705,7 @@ def work(cfg):
         n = rx_config(kind, nbytes, bs, once, stalls, p, inject=(cfg[6] if len(cfg) > 6 else "own"))
     p.notes["%s executions" % cfg[0]] += n
     p.notes["configs"] += 1
-    if n > 1 and cfg[0] != "pair" and cfg[1] in ("Client", "IncomerTls") and cfg[2] in ((2, 1), 3) and (len(cfg) < 5 or (cfg[4] != "bytearray" and len(cfg) == 5)):
+    if n > 1 and cfg[0] not in ("pair", "rxend") and cfg[1] in ("Client", "IncomerTls") and cfg[2] in ((2, 1), 3) and (len(cfg) < 5 or (cfg[4] != "bytearray" and len(cfg) == 5)):
         p.sample(dict(config=cfg, executions=n, last_execution_answers=LAST.get("answers")))
     return p
 
@@ -631,7 +716,9 @@ def replay(path):
     init()
     p = core.Part()
     c = r["case"]
-    if c[0] == "pair":
+    if c[0] == "rxend":
+        rxend_config(c[1], c[2], c[3], p, replay=r["choices"])
+    elif c[0] == "pair":
         pair_config(c[1], tuple(c[2]), tuple(c[3]), c[4], c[5], p, replay=r["choices"])
     elif c[0] == "tx":
         tx_config(c[1], tuple(c[2]), c[3], p, replay=r["choices"], form=(c[4] if len(c) > 4 else "bytes"),
@@ -650,7 +737,7 @@ def run():
     cfgs = configs(core.TIER)
     # big configurations first so the pool stays busy; merge in the simplest-first order
     order = sorted(range(len(cfgs)), key=lambda i: -(sum(cfgs[i][2]) if cfgs[i][0] == "tx" else
-                                                      (20 if cfgs[i][0] == "pair" else cfgs[i][2])))
+                                                      (20 if cfgs[i][0] == "pair" else (cfgs[i][2] if cfgs[i][0] == "rx" else 1))))
     parts = core.pmap(work, [cfgs[i] for i in order])
     byidx = dict(zip(order, parts))
     ck.merge([byidx[i] for i in range(len(cfgs))])
